@@ -339,7 +339,37 @@ pub fn execute_threads(s: &TScenario) -> Result<CaseReport, Failure> {
       while gates.entered.lock().unwrap().len() != gates.returned.lock().unwrap().len() && t.elapsed() < Duration::from_secs(10) {
         std::thread::sleep(Duration::from_micros(100));
       }
-      std::thread::sleep(Duration::from_micros(300));
+      // a refresh of a stale entry with a sync loader runs on a thread the cache spawned and nobody
+      // joins; it may not even have entered the loader yet: wait for it (liveness only — if it never
+      // shows up the wave is inconclusive, not a violation)
+      if !s.async_loader {
+        for (k, _, _) in &w.groups {
+          if state[k] == St::Stale {
+            let t = Instant::now();
+            while !st.log.lock().unwrap()[loads_seen..].iter().any(|l| l.key == *k) {
+              if t.elapsed() > Duration::from_secs(10) {
+                return Err(Failure::new("C15", "E4/loader/inconclusive", "no refresh observed within 10 s"));
+              }
+              std::thread::sleep(Duration::from_micros(200));
+            }
+          }
+        }
+        let t = Instant::now();
+        while gates.entered.lock().unwrap().len() != gates.returned.lock().unwrap().len() && t.elapsed() < Duration::from_secs(10) {
+          std::thread::sleep(Duration::from_micros(100));
+        }
+      }
+      // every loader invocation of this engine ends in exactly one insert; `inserts` is bumped after
+      // the map insert, so this waits until every loaded value is in the map (liveness only)
+      {
+        let t = Instant::now();
+        while (cache.metrics().inserts as usize) < st.log.lock().unwrap().len() {
+          if t.elapsed() > Duration::from_secs(10) {
+            return Err(Failure::new("C15", "E4/loader/inconclusive", "a loaded value was not inserted within 10 s"));
+          }
+          std::thread::sleep(Duration::from_micros(100));
+        }
+      }
       let loads: Vec<LoadRec> = {
         let g = st.log.lock().unwrap();
         let v = g[loads_seen..].to_vec();
@@ -791,10 +821,10 @@ pub fn execute_async(s: &AScenario) -> Result<CaseReport, Failure> {
 
 pub fn check(check: &mut Check) {
   let ctx = check.ctx.clone();
-  let n_threads = ctx.tier.pick(600u64, 20_000u64);
+  let n_threads = ctx.tier.pick(400u64, 20_000u64);
   let out = vcore::drive(&ctx, &check.findings, 3, n_threads, tscenario_strategy, |s| execute_threads(s));
   check.absorb(crate::ENGINE_LOADER, out);
-  let n_async = ctx.tier.pick(30_000u64, 2_000_000u64);
+  let n_async = ctx.tier.pick(20_000u64, 2_000_000u64);
   let out = vcore::drive(&ctx, &check.findings, 4, n_async, ascenario_strategy, |s| execute_async(s));
   check.absorb(crate::ENGINE_ALOADER, out);
   check.require_class("threads:wave_miss", 100);
